@@ -24,6 +24,8 @@ pub struct Case {
     pub keep_bytes: bool,
     pub record_probes: bool,
     pub send_yields: bool,
+    /// wall-clock perturbation (see `Net::stall_after_send`)
+    pub stall_after_send: Option<(usize, u64)>,
     /// per-party overrides (C18): (inputs, p_eval, p_own, p_out, circuit)
     pub overrides: Vec<Option<PartyArgs>>,
 }
@@ -53,6 +55,7 @@ impl Case {
             keep_bytes: true,
             record_probes: false,
             send_yields: false,
+            stall_after_send: None,
             overrides: vec![None; n],
         }
     }
@@ -103,6 +106,7 @@ pub fn exec_mpc(mut case: Case) -> Exec {
         g.adversary = case.adversary.take();
         g.keep_bytes = case.keep_bytes;
         g.send_yields = case.send_yields;
+        g.stall_after_send = case.stall_after_send;
     }
     let dirs: Vec<Option<PathBuf>> = (0..n)
         .map(|p| if case.tmp[p] { Some(fresh_scratch_dir(&format!("p{p}"))) } else { None })
